@@ -2,6 +2,7 @@
 surface-type table agreement.  Intersection/sense/normal consistency: not decided."""
 import re
 from fractions import Fraction
+from cfg import path_leaf
 from common import C, short
 from astutil import strip, find_all, show, OutOfVocabulary
 from facts import AnalysisBroken
@@ -27,6 +28,8 @@ UNITS = [
     "src/orange/OrangeTypes.cc",
     "src/orange/detail/OrangeInputIOImpl.json.cc",
     "src/orange/transform/Transformation.cc",
+    "src/orange/surf/detail/SurfaceTranslator.cc",
+    "src/orange/surf/Involute.cc",
 ]
 
 
@@ -207,6 +210,8 @@ def run(db, cx):
           len(names) == len(sts) and len(set(names)) == len(names),
           "%d names for %d enumerators" % (len(names), len(sts)), "src/orange/OrangeTypes.cc",
           why="duplicate or missing names make the JSON surface type ambiguous")
+    quadric_translation(db, cx)
+    rebuild_from_accessors(db, cx)
 
 
 def fmt(form):
@@ -217,3 +222,105 @@ def fmt(form):
         m = "".join("R" if s == "R" else "R^T" for s in w)
         out.append("%s%s%s" % ("" if c == 1 else "%s*" % c, m + " " if m else "", "x" if k == "x" else "t"))
     return " + ".join(out)
+
+
+def quadric_translation(db, cx):
+    """C12.3 (A6, lib/polyinterp.py): SurfaceTranslator for the two quadric classes computes new
+    coefficients from the old ones and the translation t.  The translated surface is the point
+    set shifted by t, i.e. its implicit function is f(x - t).  The body is interpreted over
+    polynomials in the symbolic coefficients and t, and the resulting implicit function is
+    compared with the expansion of f(x - t) as a polynomial identity in x."""
+    from polyinterp import Poly, interpret
+    ST = C + "detail::SurfaceTranslator::operator()"
+    x = [Poly.sym("x%d" % i) for i in range(3)]
+    t = [Poly.sym("t%d" % i) for i in range(3)]
+    a = [Poly.sym("a%d" % i) for i in range(3)]
+    b = [Poly.sym("b%d" % i) for i in range(3)]
+    e = [Poly.sym("e%d" % i) for i in range(3)]      # cross terms: xy, yz, zx
+    c0 = Poly.sym("c")
+
+    def f_sq(sec, fst, z, p):
+        r = as_p(z)
+        for i in range(3):
+            r = r + as_p(sec[i]) * p[i] * p[i] + as_p(fst[i]) * p[i]
+        return r
+
+    def f_gq(sec, crs, fst, z, p):
+        r = f_sq(sec, fst, z, p)
+        r = r + as_p(crs[0]) * p[0] * p[1] + as_p(crs[1]) * p[1] * p[2] + as_p(crs[2]) * p[2] * p[0]
+        return r
+    from polyinterp import as_poly as as_p
+    shifted = [x[i] - t[i] for i in range(3)]
+    cases = (("SimpleQuadric", {C + "SimpleQuadric::second": a, C + "SimpleQuadric::first": b,
+                                C + "SimpleQuadric::zeroth": c0},
+              lambda args: f_sq(args[0], args[1], args[2], x), f_sq(a, b, c0, shifted)),
+             ("GeneralQuadric", {C + "GeneralQuadric::second": a, C + "GeneralQuadric::cross": e,
+                                 C + "GeneralQuadric::first": b, C + "GeneralQuadric::zeroth": c0},
+              lambda args: f_gq(args[0], args[1], args[2], args[3], x), f_gq(a, e, b, c0, shifted)))
+    for cls, acc, build, want in cases:
+        fs = [f for f in db.get(ST) if f.r["params"] and cls in f.r["params"][0]["ty"] and "ast" in f.r]
+        cx.require(fs, "anchor SurfaceTranslator::operator()(%s) (AST) not found" % cls)
+        acc = dict(acc)
+        acc[C + "Translation::translation"] = t
+        res = interpret(fs[0], acc)
+        ok = False
+        d = "unexpected return value %r" % (res,)
+        if isinstance(res, tuple) and res[0] == "construct" and res[1].endswith(cls + "::" + cls):
+            got = build(res[2])
+            diff = got - want
+            ok = diff == Poly()
+            d = "f'(x) - f(x - t) = %s" % (diff if not ok else "0")
+        cx.ob("C12.3-quadric-translation", "translated %s has the implicit function f(x - t)" % cls,
+              ok, d[:600], short(fs[0].loc),
+              why="a translated surface must contain exactly the translated points: any other "
+                  "coefficient moves or deforms the surface, so the sense at the transformed point "
+                  "differs from the original's sense at the original point")
+
+
+def rebuild_from_accessors(db, cx):
+    """C12.4: the translators rebuild a surface as K{..., other.acc(), ...}.  That is the
+    identity for a zero translation only if acc() returns what the constructor parameter means.
+    Structural contradiction: the constructor stores parameter p in field F and then re-assigns
+    F as a function of itself on some path (a normalisation such as F = pi - F), while acc() is a
+    raw `return F` - then K{other.acc()} applies the normalisation twice."""
+    n = 0
+    for f in db.get(C + "detail::SurfaceTranslator::operator()"):
+        for (b, i, ev) in f.events("call"):
+            if not ev.get("ctor"):
+                continue
+            cls = ev["callee"].rsplit("::", 1)[0]
+            ctors = [g for g in db.get(ev["callee"]) if g.r.get("sig") == ev.get("sig") or len(db.get(ev["callee"])) == 1]
+            if not ctors or "/orange/surf/" not in ctors[0].loc:
+                continue
+            g = ctors[0]
+            params = [p["n"] for p in g.r["params"]]
+            for j, a in enumerate(ev.get("args", [])):
+                accs = [c for c in a.get("calls", []) if c.startswith(cls + "::")]
+                if len(accs) != 1 or len(a.get("calls", [])) != 1 or j >= len(params):
+                    continue
+                n += 1
+                acc = accs[0]
+                fld = None
+                for (_b, _i, w) in g.events("write"):
+                    if w.get("kind") == "ctorinit" and (w.get("rhs") or "").strip() == params[j]:
+                        fld = path_leaf(w.get("path"))
+                if fld is None:
+                    continue
+                renorm = [w for (_b, _i, w) in g.events("write") if w.get("kind") != "ctorinit"
+                          and path_leaf(w.get("path")) == fld and "F:" + fld in w.get("refs", [])]
+                raw = False
+                for h in db.get(acc):
+                    rets = [r for (_b, _i, r) in h.events("return")]
+                    raw = bool(rets) and all(not r.get("calls") and r.get("refs") and
+                                             set(x for x in r["refs"] if x != "this") == {"F:" + fld}
+                                             for r in rets)
+                bad = bool(renorm) and raw
+                cx.ob("C12.4-rebuild-from-accessors", "%s rebuilt from %s(): accessor and constructor "
+                      "parameter `%s` mean the same [%s]" % (cls.split("::")[-1], acc.split("::")[-1], params[j],
+                                                              f.inst.split("<")[-1][:30] if "<" in f.inst else "-"),
+                      not bad, ("constructor re-normalises %s (`%s = %s`) but %s() returns the stored "
+                                "value" % (fld.split("::")[-1], renorm[0].get("lhs"), renorm[0].get("rhs"),
+                                           acc.split("::")[-1])) if bad else "", short(ev["loc"]),
+                      why="rebuilding the surface from that accessor applies the constructor's "
+                          "normalisation a second time: even a zero translation changes the surface")
+    cx.floor("surfaces rebuilt from accessors in SurfaceTranslator", n, 3)
